@@ -67,6 +67,9 @@ def run_control(path, props_filter, run_tests):
         else:
             # a behaviour-preserving edit must stay silent everywhere
             to_run = list(have) if os.environ.get("CTL_SILENT_ALL", "1") == "1" else [p for p in (props or have) if p in have]
+            if os.path.basename(path).startswith("residual-") and props:
+                # a recorded residual false alarm: only the listed properties are required to stay silent
+                to_run = [p for p in props if p in have]
         if props_filter:
             to_run = [p for p in to_run if p in props_filter]
         flagged, details = [], {}
